@@ -74,6 +74,29 @@ def end_to_end(tier, rng, fails):
                 bad("BatchReactor.fit", "%s, batch %s: entry %r got %d results, alone %d" % (name, order[:3], wrong[0][0], len(wrong[0][1]), len(alone[wrong[0][0]])),
                     "batch-vs-single")
                 break
+    # (1b) de-duplication off and a rule list in which one rule *object* occurs twice: cached results must not be aliased or grown in place
+    try:
+        from synkit.IO import rsmi_to_its
+        r_br = rsmi_to_its("[CH3:1][Br:2].[OH:3][H:4]>>[CH3:1][OH:3].[Br:2][H:4]", core=True)
+        r_cl = rsmi_to_its("[CH3:1][Cl:2].[OH:3][H:4]>>[CH3:1][OH:3].[Cl:2][H:4]", core=True)
+        rep_subs = ["ClCCBr.O", "CCBr.O", "CCCl.O", "ClCCBr.O", "CCO"]
+
+        def fit_rep(data, rules, **kw):
+            return [list(r[key]) for r in BatchReactor(list(data), react_engine="syn", enable_logging=False, dedupe=False, **kw).fit(list(rules))]
+        for rules in ([r_br, r_cl, r_br], [r_br, r_br], [r_cl, r_br, r_cl, r_br]):
+            per_rule = {s: [x for r in rules for x in fit_rep([s], [r], cache_enabled=False)[0]] for s in set(rep_subs)}
+            for kw, name in (({"cache_enabled": True}, "cache on"), ({"cache_enabled": False}, "cache off"), ({"cache_enabled": True, "cache_maxsize": 1}, "cache of 1")):
+                got = fit_rep(rep_subs, rules, **kw)
+                cases += len(rep_subs)
+                wrong = [(s, g) for s, g in zip(rep_subs, got) if g != per_rule[s]]
+                if wrong:
+                    bad("BatchReactor.fit", "dedupe off, repeated rule object, %s: entry %r got %d results, per-rule concatenation has %d" % (
+                        name, wrong[0][0], len(wrong[0][1]), len(per_rule[wrong[0][0]])), "batch-vs-single-nodedupe")
+                    break
+        if not any(per_rule.values()):
+            bad("BatchReactor.fit", "no product generated (vacuous comparison)", "vacuity")
+    except Exception as ex:
+        bad("BatchReactor.fit", "dedupe off raised %r" % (ex,), "batch-vs-single-nodedupe")
     # (2) batched clustering == one-shot clustering
     from synkit.Graph.Matcher.batch_cluster import BatchCluster
 
@@ -143,6 +166,30 @@ def end_to_end(tier, rng, fails):
             unb = sorted(x["rsmi"] for x in res[1])
             if bal != sorted(r for r, b in zip(BALANCE, single) if b) or unb != sorted(r for r, b in zip(BALANCE, single) if not b):
                 bad("BalanceReactionCheck.dicts_balance_check", "n_jobs=%d: balanced %s differs from one-at-a-time %s" % (nj, bal, single), "serial-vs-parallel")
+    # (4b) records that already carry fields (incl. an earlier "balanced" annotation): the record returned for an entry is the same
+    #      whatever the worker count and whether it is checked alone or in a batch
+    annotated = [{"id": "a", "rsmi": "CC(=O)O.CCO>>CC(=O)OCC.O"}, {"id": "b", "rsmi": "CC(=O)O.CCO>>CC(=O)OCC"},
+                 {"id": "c", "rsmi": "CCBr.O>>CCO.Br", "balanced": False}, {"id": "d", "rsmi": "CCBr.O>>CCO", "balanced": True},
+                 {"id": "e", "rsmi": "CCl.O>>CO.Cl", "balanced": True, "note": 1}]
+    try:
+        def bal_run(records, nj):
+            b, u = BalanceReactionCheck(n_jobs=nj).dicts_balance_check([dict(r) for r in records], "rsmi")
+            return sorted(b, key=lambda r: r["id"]), sorted(u, key=lambda r: r["id"])
+        ref = bal_run(annotated, 1)
+        for nj in (2, 3):
+            cases += 1
+            if bal_run(annotated, nj) != ref:
+                bad("BalanceReactionCheck.dicts_balance_check", "annotated records: n_jobs=%d differs from n_jobs=1" % nj, "serial-vs-parallel")
+        for nj in (1, 2):
+            inb = {r["id"]: (r, i) for i, part in enumerate(bal_run(annotated, nj)) for r in part}
+            for rec in annotated:
+                cases += 1
+                al = bal_run([rec], nj)
+                got = (al[0][0], 0) if al[0] else (al[1][0], 1)
+                if got != inb[rec["id"]]:
+                    bad("BalanceReactionCheck.dicts_balance_check", "annotated record %s (n_jobs=%d): alone %s, in the batch %s" % (rec["id"], nj, got, inb[rec["id"]]), "batch-vs-single")
+    except Exception as ex:
+        bad("BalanceReactionCheck.dicts_balance_check", "annotated records raised %r" % (ex,), "serial-vs-parallel")
     # (5) network expansion
     from synkit.CRN.DAG.syncrn import build_syncrn_from_smarts
 
@@ -154,13 +201,18 @@ def end_to_end(tier, rng, fails):
     crn_rules = ["[C:2]=[O:3].[H:6][N:4][H:7]>>[C:2]=[N:4].[H:6][O:3][H:7]",
                  "[C:2](=[O:3])[O:4][H:8].[C:5][O:6][H:7]>>[C:2](=[O:3])[O:6][C:5].[H:8][O:4][H:7]"]
     try:
-        a = crn_dump(build_syncrn_from_smarts(crn_rules, ["CC=O", "NC", "CC(=O)O", "CO"], repeats=2, parallel=False))
-        b = crn_dump(build_syncrn_from_smarts(crn_rules, ["CC=O", "NC", "CC(=O)O", "CO"], repeats=2, parallel=True, max_workers=2))
-        cases += 1
-        if a != b:
-            bad("SynCRN.build", "parallel expansion differs from serial: %s vs %s" % (b, a), "serial-vs-parallel")
-        if not a[1]:
-            bad("SynCRN.build", "no reaction event generated (vacuous comparison)", "vacuity")
+        sn2 = ["[C:1][Br:2].[O:3][H:4]>>[C:1][O:3].[Br:2][H:4]"]
+        for rl, seeds in ((crn_rules, ["CC=O", "NC", "CC(=O)O", "CO"]), (crn_rules, ["CC=O", "NC", "CO"]), (crn_rules, ["CC=O", "NC", "CC(=O)O", "CO", "NCC"]),
+                          (sn2, ["CBr", "CCBr", "O"]), (sn2, ["CBr", "CCBr", "CCCBr", "O"]), (sn2, ["O", "CBr", "CCBr", "CC(C)Br", "BrCCBr"]),
+                          (sn2 + crn_rules[:1], ["CBr", "O", "CC=O", "NC", "CCBr"])):
+            a = crn_dump(build_syncrn_from_smarts(rl, seeds, repeats=2, parallel=False))
+            for mw in (2, 3, 4):          # worker counts that do and do not divide the number of rule applications of a step
+                b = crn_dump(build_syncrn_from_smarts(rl, seeds, repeats=2, parallel=True, max_workers=mw))
+                cases += 1
+                if a != b:
+                    bad("SynCRN.build", "parallel expansion (%d workers, seeds %s) differs from serial: %d vs %d events" % (mw, seeds, len(b[1]), len(a[1])), "serial-vs-parallel")
+            if not a[1]:
+                bad("SynCRN.build", "no reaction event generated (vacuous comparison)", "vacuity")
     except Exception as ex:
         bad("SynCRN.build", "raised %r" % (ex,), "serial-vs-parallel")
     return cases
